@@ -82,13 +82,13 @@ UNITS.append(dict(
     assumptions=['services_owned holds exactly the services the connection is primary or queued owner of (bus_connection_add_owned_service*, C04 units)']))
 
 
-def opt(q, tier='quick', expect_s=60):
+def opt(q, tier='quick', expect_s=60, n=3):
     nm, fn = WHAT[q]
     UNITS.append(dict(
-        name='C06.optimize_%s_n3' % nm, props=['C06'], kind='B', route='plain', bus=True, tier=tier,
+        name='C06.optimize_%s_n%d' % (nm, n), props=['C06'], kind='B', route='plain', bus=True, tier=tier,
         tus=[dict(file=POL, include_as='VERIF_TU'), dict(file=LIST), dict(file=STR)], harness='harness/c06_opt.c',
-        defines=['VERIF_Q=%d' % q, 'VERIF_N=3', 'SPEC_STR_MAX=6'], unwind=7, timeout=1500, expect_s=expect_s, must_have=['post1', 'post2'],
-        bounds={'rules': 3, 'strings': 'as C06.*_n3', 'note': 'mixed send/receive/own lists, every attribute symbolic; decision compared through the real %s before and after' % fn},
+        defines=['VERIF_Q=%d' % q, 'VERIF_N=%d' % n, 'SPEC_STR_MAX=6'], unwind=7, timeout=1500, expect_s=expect_s, must_have=['post1', 'post2'],
+        bounds={'rules': n, 'strings': 'as C06.*_n3', 'note': 'mixed send/receive/own lists, every attribute symbolic; decision compared through the real %s before and after' % fn},
         functions=[dict(name='bus_client_policy_optimize + remove_rules_by_type_up_to', file=POL, status='bounded',
                         contract='decision of %s unchanged for every message facts record; remaining rules are a subsequence; dropped rules released once' % fn),
                    dict(name=fn, file=POL, status='inlined', note='real code on both sides; its semantics is the C06.%s_n3 unit' % nm),
@@ -98,8 +98,8 @@ def opt(q, tier='quick', expect_s=60):
 
 
 opt(2, expect_s=30)
-opt(0, tier='thorough', expect_s=400)
-opt(1, tier='thorough', expect_s=300)
+opt(0, expect_s=400)     # 3-6 min each: kept in the quick tier because only they decide the optimiser for send/receive rules
+opt(1, expect_s=300)
 
 UNITS.append(dict(
     name='C06.create_client_policy', props=['C06'], kind='B', route='stub', bus=True,
